@@ -281,13 +281,6 @@ class PointTier(textgrid_tier.TextgridTier):
         croppedTier = newTier.crop(start, end, constants.CropCollision.TRUNCATED, False)
         matchList = croppedTier.entries
 
-        if doShrink is True:
-            # Only what lies inside the tier's span can be cut out of it
-            start = max(start, self.minTimestamp)
-            end = min(end, self.maxTimestamp)
-            if start >= end:
-                return newTier
-
         if len(matchList) > 0:
             # Remove all the matches from the entries
             # Go in reverse order because we're destructively altering
@@ -296,6 +289,11 @@ class PointTier(textgrid_tier.TextgridTier):
                 newTier.deleteEntry(point)
 
         if doShrink is True:
+            # Only what lies inside the tier's span can be cut out of it
+            start = max(start, self.minTimestamp)
+            end = min(end, self.maxTimestamp)
+
+        if doShrink is True and start < end:
             # See IntervalTier.eraseRegion for why times are shifted
             # as 'start + (time - end)'
             newEntries = []
